@@ -135,6 +135,8 @@ pub struct Outcome {
     pub backlog_at_stop: Option<(u64, u64)>,
     /// Largest capacity requested for a bounded data queue (slots allocated at creation by the real crate).
     pub max_capacity_request: u64,
+    /// Managed threads that had not finished when the program's main function returned.
+    pub alive_at_main_return: Vec<String>,
 }
 
 impl Outcome {
@@ -798,7 +800,23 @@ pub fn run<R>(cfg: RunConfig, f: impl FnOnce() -> R) -> Result<(Option<R>, Outco
 
     let result = std::panic::catch_unwind(std::panic::AssertUnwindSafe(|| {
         let r = f();
-        // Drain: every other managed thread must finish on its own.
+        // The program's main function has returned: in a real process every other thread dies here. Which ones
+        // had not finished (and not been joined) is recorded; then they are left to finish on their own (drain).
+        {
+            let mut g = lock_rt();
+            if let Some(rt) = g.as_mut() {
+                if rt.active && !rt.aborting {
+                    rt.out.alive_at_main_return = rt
+                        .threads
+                        .iter()
+                        .enumerate()
+                        .skip(1)
+                        .filter(|(_, t)| t.state != ThState::Finished)
+                        .map(|(i, t)| format!("T{i}({})", t.name))
+                        .collect();
+                }
+            }
+        }
         decision_point(0, Cond::AllOthersDone, OpKind::Drain, 0);
         r
     }));
